@@ -316,3 +316,63 @@ def check_dependency_names(chk):
             else:
                 chk.ok("G-FLOW.e", key, {"where": where, "argument": gen.expr_text(args[0], 0, fn)[:80] if args else ""})
     chk.floor("dependency registrations", n, 4)
+
+
+# --------------------------------------------------------------- G-FLOW.f
+GENERATOR_CLASSES = ("messages_compiler", "types_compiler", "traits_generator", "tags_generator", "names_generator",
+                     "schema_compiler", "normal_accessors")
+
+
+def check_declared_presence(chk):
+    """G-FLOW.f: whether a field is stored / optional / constant is decided once, by the validator
+    (`get_actual_presence` -> `field_context::actual_presence`): the encoding wins over what the <field> declares.
+    A generator that consults the *declared* attribute (`sbe::field::presence`) treats a field whose declaration
+    disagrees with its encoding differently from every other generated piece (accessor present but member not
+    visited, trait says optional for a type that cannot hold null ...).  The only place where the declaration is the
+    truth is a field of a built-in primitive type: every read of `sbe::field::presence` in a generator must be
+    dominated by `is_primitive_type(<that field>.type)`."""
+    f = gen.facts()
+    n = 0
+    fns = gen.sbeppc_functions(f) + [fn for fn in f["functions"] if "/sbeppc/src/" in fn["file"] and fn.get("body") is not None
+                                     and fn.get("dependent") and fn.get("lambda")]
+    seen = set()
+    for fn in fns:
+        owner = (fn.get("base") or fn.get("qn") or "")
+        if not any(c in owner for c in GENERATOR_CLASSES):
+            continue
+        par = None
+        for x in walk(fn["body"]):
+            k = x.get("k")
+            if k == "MemberExpr" and x.get("dk") == "Field" and x.get("name") == "presence" and (x.get("fieldof") or "").endswith("sbe::field"):
+                pass
+            elif k == "CXXDependentScopeMemberExpr" and (x.get("member") or x.get("name")) == "presence":
+                pass        # generic lambda over fields / types: judged by its guard like a resolved read
+            else:
+                continue
+            base = x.get("base")
+            btxt = gen.expr_text(base, 0, None) if isinstance(base, dict) else "?"
+            if k == "CXXDependentScopeMemberExpr" and btxt in ("t", "type", "enc"):
+                continue    # a <type>'s own presence (the encoding's), not the field's declaration
+            ident = (fn["file"], x.get("l"), btxt)
+            if ident in seen:
+                continue
+            seen.add(ident)
+            n += 1
+            par = par or gen.parents(fn)
+            conds = gen.dominating_conditions(fn, x, par)
+            texts = [(gen.expr_text(c, 0, None), pol) for c, pol in conds]
+            ok = any(pol and "is_primitive_type(" in t and (btxt + ".type") in t for t, pol in texts)
+            key = "declared-presence:%s" % gen.short(fn)
+            where = "%s:%s" % (rel(fn["file"]), x.get("l"))
+            if ok:
+                chk.ok("G-FLOW.f", key + "#%s" % x.get("l"), {"where": where, "read": btxt + ".presence", "guard": "is_primitive_type(%s.type)" % btxt},
+                       nontrivial=True)
+            else:
+                chk.violation("G-FLOW.f", key, where,
+                              "%s consults the declared presence `%s.presence` of a field outside a "
+                              "`is_primitive_type(%s.type)` branch (dominating: {%s}): for a field whose declaration disagrees "
+                              "with its encoding (declared constant, type stored; declared optional, type an enum) this piece of "
+                              "generated code contradicts the accessors, which follow field_context::actual_presence"
+                              % (gen.short(fn), btxt, btxt, "; ".join(("" if pol else "!") + t[:60] for t, pol in texts)))
+    chk.floor("declared-presence reads in generators", n, 2)
+    return n
